@@ -657,6 +657,24 @@ def job_fast_path(args):
         res.update(status=status, leaves=len(leaves), some_leaves=nsome, stats=stats)
         if model:
             res["model"] = {"w": model.get("w"), "many": model.get("many")}
+            # The contract (operands exact, exact quotient/product == w*10^q) is sufficient for correct rounding, not
+            # necessary: one witness of its violation need not be misrounded by the real code (an inexact table power still
+            # rounds most significands correctly).  Ask the solver for further witnesses of the same violated contract in
+            # disjoint windows of w, so that the replay on the real crate can find one that is observably wrong.
+            B0 = T.Builder()
+            more = []
+            lim = F["p1"] + 1
+            for k in list(range(lim - 1, 3, -2)) + [lim + 3, 40, 62]:
+                lo, hi = (1 << k) | 1, (1 << (k + 1)) - 1
+                win = B0.band_bool(B0.le(T.const(lo), w), B0.le(w, T.const(hi)))
+                for extra in (T.TRUE, B0.le(T.const(lo + (hi - lo) // 2), w)):
+                    st2, m2, s2 = decide([B0.band_bool(b, B0.band_bool(win, extra)) for b in bads if b is not T.FALSE],
+                                         min(timeout, 10), leaf_fallback=False)
+                    stats["queries"] += s2.get("queries", 0)
+                    stats["solver_s"] += s2.get("solver_s", 0.0)
+                    if st2 == "violated" and m2 and m2.get("w") is not None:
+                        more.append({"w": m2.get("w"), "many": m2.get("many")})
+            res["more_models"] = more
     except Exception as e:
         res.update(status="error", detail="%s: %s" % (type(e).__name__, e), tb=traceback.format_exc()[-1500:])
     res["wall_s"] = time.time() - t0
